@@ -1084,6 +1084,34 @@ func ruleR037(c *Ctx) {
 						return true
 					}
 				}
+				if target == nil {
+					// type switch: which node kinds does it tell apart?
+					var ts *ast.TypeSwitchStmt
+					for q := c.Parent(x); q != nil && ts == nil; q = c.Parent(q) {
+						if t, ok := q.(*ast.TypeSwitchStmt); ok {
+							ts = t
+						}
+						if _, isBlock := q.(*ast.BlockStmt); isBlock {
+							break
+						}
+					}
+					if ts != nil {
+						onlyConst, any := true, false
+						for _, cl := range ts.Body.List {
+							for _, e := range cl.(*ast.CaseClause).List {
+								any = true
+								st, ok := ast.Unparen(e).(*ast.StarExpr)
+								if !ok || !isNamed(info.TypeOf(st.X), modPath, "Const") {
+									onlyConst = false
+								}
+							}
+						}
+						if any && onlyConst {
+							c.OK(key, x.Pos(), "the only shape test on a parsed operand is the constant test of let/func values (type switch with the single case *Const)")
+							return true
+						}
+					}
+				}
 				c.Violation(key, x.Pos(), "the parser decides on the node kind of an already parsed operand (%s): parentheses leave no trace in the AST, so (x)(y)/(x).y and x(y)/x.y are grouped alike and explicit parentheses are not honoured", tname)
 				return true
 			})
@@ -1156,6 +1184,24 @@ func ruleR039(c *Ctx) {
 		}
 		id, ok := ast.Unparen(as.Lhs[0]).(*ast.Ident)
 		if !ok || info.ObjectOf(id) != exprObj {
+			return false
+		}
+		if call, ok := ast.Unparen(as.Rhs[0]).(*ast.CallExpr); ok {
+			// newMapAccess(key, expression, line): the literal lives in a private constructor; one of its fields has to
+			// be initialised with the argument that carries the current expression
+			cl, argOf := c.ctorLiteral(info, call)
+			if cl == nil {
+				return false
+			}
+			for _, el := range cl.Elts {
+				kv, ok := el.(*ast.KeyValueExpr)
+				if !ok {
+					continue
+				}
+				if id, ok := ast.Unparen(argOf(kv.Value)).(*ast.Ident); ok && info.ObjectOf(id) == exprObj {
+					return true
+				}
+			}
 			return false
 		}
 		u, ok := ast.Unparen(as.Rhs[0]).(*ast.UnaryExpr)
